@@ -2,5 +2,5 @@ From Coq Require Import ZArith List Bool.
 From Coq Require Import ExtrOcamlBasic.
 From Average Require Import AccModel Window.
 Extraction Language OCaml.
-Extraction "avgmodel.ml" run_thread run_outputs process_data finalize st_init mkEnv mkFrame mkShape
+Extraction "avgmodel.ml" run_thread run_acquisitions run_outputs process_data finalize st_init mkEnv mkFrame mkShape
   f32_bits f32_of_bits window_mean mean_pixel acc_pixel inv_norm spec_outputs.
